@@ -49,7 +49,7 @@ func genCase(t *rapid.T) Case {
 	}
 	doc := gen.Schema(t, o)
 	inst := gen.InstanceFor(t, doc, 16)
-	return Case{Schema: gen.Text(doc), Instance: gen.Text(inst), Root: rapid.SampledFrom([]string{"", "root", "a.b"}).Draw(t, "root")}
+	return Case{Schema: gen.Text(doc), Instance: gen.Text(inst), Root: rapid.SampledFrom([]string{"", "root", "a.b", "50%", "%v"}).Draw(t, "root")}
 }
 
 // eligible tells whether location accuracy is claimed for this schema.
